@@ -15,11 +15,12 @@ open Algobra Algobra.Gen.Code
 
 /-! ### A. the inner loop (over the prime factors of `card - 1`) -/
 
-theorem wrapInt_succ {k : Nat} (hk : k < 2 ^ 63) : wrapInt (Int.ofNat k + 1) = Int.ofNat (k + 1) := by
+theorem wrapInt_succ {k : Nat} (hk : k + 1 < 2 ^ 63) :
+    wrapInt (Int.ofNat k + 1) = Int.ofNat (k + 1) := by
   unfold wrapInt
   have h0 : (0 : Int) ≤ Int.ofNat k := Int.natCast_nonneg k
-  have hk' : Int.ofNat k < 2 ^ 63 := by
-    have : ((k : Nat) : Int) < ((2 ^ 63 : Nat) : Int) := Int.ofNat_lt.2 hk
+  have hk' : Int.ofNat k + 1 < 2 ^ 63 := by
+    have : ((k + 1 : Nat) : Int) < ((2 ^ 63 : Nat) : Int) := Int.ofNat_lt.2 hk
     simpa using this
   have hm : (Int.ofNat k + 1) % (2 ^ 64 : Int) = Int.ofNat k + 1 :=
     Int.emod_eq_of_lt (by omega) (by omega)
@@ -61,7 +62,7 @@ theorem loop2_inv (e card : Nat) (factors : List Nat) (isOne : Nat → Bool) (pw
           Bool.false_and, Bool.not_false, and_self]
       · have hone' : isOne (pw e (wsub card 1 / factors[k])) = false := by simpa using hone
         simp only [hone', Bool.false_eq_true, ↓reduceIte, hdrop, List.all_cons, Bool.not_false,
-          Bool.true_and, wrapInt_succ (Nat.lt_trans hkl hlen)]
+          Bool.true_and, wrapInt_succ (show k + 1 < 2 ^ 63 by omega)]
         exact ih (k + 1) hkl (by omega)
     · have hkeq : k = factors.length := by omega
       subst hkeq
@@ -107,7 +108,7 @@ theorem loop1_inv (card : Nat) (el : Nat → Nat) (factors : List Nat) (isOne : 
   | succ f ih =>
     intro i e hi hf hleast
     have hA := loop2_generic (el i) card factors isOne pw hlen loopFuel hfl
-    simp only [go_primefield_Field_MultGenerator_core_loop1, true_and, Option.isNone_none,
+    simp only [go_primefield_Field_MultGenerator_core_loop1, Option.isNone_none,
       and_self, ↓reduceIte]
     generalize go_primefield_Field_MultGenerator_core_loop2 (el i) card factors isOne pw
       (Int.ofNat factors.length) loopFuel (false, 0, false, none) = st at hA ⊢
@@ -134,19 +135,17 @@ theorem factorize_length (fuel : Nat) : ∀ n, (Auxmath.factorize fuel n).length
   | succ f ih =>
     intro n
     simp only [Auxmath.factorize]
-    split
-    · simp
-    · split
-      · simp
-      · split
-        · simp
-        · simp only [List.length_cons]
-          exact Nat.succ_le_succ (ih _)
+    repeat' split
+    all_goals first
+      | exact ih _
+      | exact Nat.succ_le_succ (ih _)
+      | (simp only [List.length_cons]; exact Nat.succ_le_succ (ih _))
+      | simp
 
 theorem factors_length {n : Nat} (hn : n < 2 ^ 64) :
     (go_auxmath_Factorize loopFuel n).1.length < 2 ^ 63 := by
   rw [CodeTies4.factorize_tie_factors hn, List.length_map]
-  exact Nat.lt_of_le_of_lt (factorize_length 64 n) (by decide)
+  exact Nat.lt_of_le_of_lt (factorize_length 64 n) (by omega)
 
 /-- B. the translated search returns `element(g)` for the least candidate `g ≥ 2` passing all the tests
     (generic in the observations `element`, `IsOne`, `Pow`). -/
@@ -160,13 +159,15 @@ theorem multGenerator_core_generic {card : Nat} (nilE : Nat) (el : Nat → Nat) 
     go_primefield_Field_MultGenerator_core card nilE el isOne pw = some (el g) := by
   have hw := CodeTies4Proofs.wsub_card h1 h2
   have hlen := factors_length (n := wsub card 1) (by rw [hw]; omega)
+  have hfuel : g - 2 < loopFuel := by unfold loopFuel; omega
   unfold go_primefield_Field_MultGenerator_core
   generalize go_auxmath_Factorize loopFuel (wsub card 1) = F at hgood hleast hlen ⊢
   obtain ⟨factors, u⟩ := F
+  -- the fuel is made a variable: no step below may evaluate a recursion on `2^64`
+  generalize loopFuel = L at hfuel ⊢
   simp only at hgood hleast hlen ⊢
   rw [← hw] at hgood hleast
-  have hfuel : g - 2 < loopFuel := by unfold loopFuel; omega
-  rw [loop1_inv card el factors isOne pw hlen g hg64 hgood loopFuel 2 nilE hg2 hfuel hleast]
+  rw [loop1_inv card el factors isOne pw hlen g hg64 hgood L 2 nilE hg2 hfuel hleast]
 
 /-- non-vacuity of B: `card = 7`, the observations of the prime field, `g = 3` -/
 example : (1 ≤ 7 ∧ 7 ≤ 2 ^ 64) ∧ (2 ≤ 3 ∧ 3 < 2 ^ 64) ∧
